@@ -6,31 +6,34 @@ Import ListNotations.
 
 Section Final.
 Variable loads : label -> list label.
+Variable bad : label -> bool.
 Variable roots : list label.
 
-Notation reachable := (reachable loads roots).
+Notation reachable := (reachable loads bad roots).
 
 Record InvAll (s : state) : Prop := {
   all_inv : Inv s;
   all_g : inv_g loads roots s;
-  all_rk : inv_rk loads s
+  all_rk : inv_rk loads bad s
 }.
 
 Lemma InvAll_reachable : forall s, reachable s -> InvAll s.
 Proof.
   intros s R. induction R.
-  - constructor; [apply (Inv_reachable loads roots); constructor|apply inv_g_init|apply inv_rk_init].
-  - destruct IHR as [[IR IS IC] IG IK]. destruct (step_kstep loads _ _ _ H) as [Hlt K]. constructor.
-    + apply (Inv_reachable loads roots). econstructor; eauto.
+  - constructor; [apply (Inv_reachable loads bad roots); constructor|apply inv_g_init|apply inv_rk_init].
+  - destruct IHR as [[IR IS IC] IG IK]. destruct (step_kstep loads bad _ _ _ H) as [Hlt K]. constructor.
+    + apply (Inv_reachable loads bad roots). econstructor; eauto.
     + eapply inv_g_step; eauto.
     + eapply inv_rk_step; eauto.
 Qed.
 
-Lemma noerr_reachable : acyclic loads roots -> forall s, reachable s -> inv_noerr s.
+Definition good : Prop := forall m, from_roots loads roots m -> bad m = false.
+
+Lemma noerr_reachable : acyclic loads roots -> good -> forall s, reachable s -> inv_noerr s.
 Proof.
-  intros Hac s R. induction R.
+  intros Hac Hgood s R. induction R.
   - apply inv_noerr_init.
-  - destruct (InvAll_reachable _ R) as [[IR IS IC] IG IK]. destruct (step_kstep loads _ _ _ H) as [Hlt K].
+  - destruct (InvAll_reachable _ R) as [[IR IS IC] IG IK]. destruct (step_kstep loads bad _ _ _ H) as [Hlt K].
     eapply inv_noerr_step; eauto.
 Qed.
 
@@ -57,12 +60,12 @@ Proof.
   rewrite (final_all_fin s IS Hf) in Hp. discriminate.
 Qed.
 
-Lemma lo_gplus : forall s, inv_rk loads s -> forall a b, gplus loads a b -> LO s a ->
+Lemma lo_gplus : forall s, inv_rk loads bad s -> forall a b, gplus loads a b -> LO s a ->
   LO s b /\ rank (mods s b) < rank (mods s a).
 Proof.
   intros s IK a b H. induction H; intros Ha.
-  - apply (k_lo _ _ IK a Ha b H).
-  - destruct (k_lo _ _ IK a Ha b H) as [Hb Hr]. destruct (IHgplus Hb) as [Hc Hr']. split; auto. lia.
+  - apply (k_lo _ _ _ IK a Ha b H).
+  - destruct (k_lo _ _ _ IK a Ha b H) as [Hb Hr]. destruct (IHgplus Hb) as [Hc Hr']. split; auto. lia.
 Qed.
 
 Lemma final_closure : forall s, InvAll s -> final s ->
@@ -83,18 +86,18 @@ Qed.
 Theorem t_executed_at_most_once : forall s, reachable s -> NoDup (execs s).
 Proof. intros s R. eapply executed_once; eauto. Qed.
 
-Theorem t_deadlock_free : forall s, reachable s -> ~ final s -> exists tid, step loads s tid <> None.
+Theorem t_deadlock_free : forall s, reachable s -> ~ final s -> exists tid, step loads bad s tid <> None.
 Proof. intros s R. eapply deadlock_free; eauto. Qed.
 
-Theorem t_acyclic_succeed : acyclic loads roots -> forall s, reachable s ->
-  (~ final s -> exists tid, step loads s tid <> None) /\
+Theorem t_acyclic_succeed : acyclic loads roots -> good -> forall s, reachable s ->
+  (~ final s -> exists tid, step loads bad s tid <> None) /\
   (final s ->
      load_ok s = true /\
      (forall m, In m (registry s) -> loaded (mods s m) = true /\ okres (mods s m) = true) /\
      (forall m, In m (registry s) <-> from_roots loads roots m)).
 Proof.
-  intros Hac s R. split; [apply t_deadlock_free; auto|]. intros Hf.
-  pose proof (InvAll_reachable s R) as IA. pose proof (noerr_reachable Hac s R) as [Nok _].
+  intros Hac Hgood s R. split; [apply t_deadlock_free; auto|]. intros Hf.
+  pose proof (InvAll_reachable s R) as IA. pose proof (noerr_reachable Hac Hgood s R) as [Nok _].
   assert (Hall : forall m, In m (registry s) -> loaded (mods s m) = true /\ okres (mods s m) = true).
   { intros m Hm. split; auto. apply final_loaded; auto. apply IA. }
   split; [|split; [exact Hall|intros m; split]].
@@ -123,14 +126,36 @@ Proof.
   destruct Hex as [m [Hm Hk]]. exists m. repeat split; auto. apply final_loaded; auto. apply IA.
 Qed.
 
-Theorem t_deterministic : acyclic loads roots -> forall s1 s2, reachable s1 -> reachable s2 -> final s1 -> final s2 ->
+(** a module the packages reach fails by itself (missing or unreadable file, syntax error, run-time failure): the
+    load as a whole fails -- and, by [t_deadlock_free] and [t_terminates], it still ends under every schedule *)
+Theorem t_faulty_fail : (exists m, from_roots loads roots m /\ bad m = true) -> forall s, reachable s -> final s ->
+  load_ok s = false /\ exists m, In m (registry s) /\ loaded (mods s m) = true /\ okres (mods s m) = false.
+Proof.
+  intros [c [Hc Hb]] s R Hf.
+  pose proof (InvAll_reachable s R) as IA.
+  assert (Hno : load_ok s = false).
+  { destruct (load_ok s) eqn:Hl; auto. exfalso.
+    unfold load_ok in Hl. rewrite forallb_forall in Hl.
+    destruct (final_closure s IA Hf Hl c Hc) as [Hlo _].
+    rewrite (k_bad _ _ _ (all_rk _ IA) c Hlo) in Hb. discriminate. }
+  split; auto.
+  unfold load_ok in Hno.
+  assert (Hex : exists m, In m (registry s) /\ okres (mods s m) = false).
+  { clear -Hno. induction (registry s) as [|x l IH]; cbn in Hno; [discriminate|].
+    destruct (okres (mods s x)) eqn:Hx; cbn in Hno.
+    - destruct (IH Hno) as [m [Hm Hk]]. exists m. split; [right|]; auto.
+    - exists x. split; [left|]; auto. }
+  destruct Hex as [m [Hm Hk]]. exists m. repeat split; auto. apply final_loaded; auto. apply IA.
+Qed.
+
+Theorem t_deterministic : acyclic loads roots -> good -> forall s1 s2, reachable s1 -> reachable s2 -> final s1 -> final s2 ->
   load_ok s1 = true /\ load_ok s2 = true /\
   (forall m, In m (registry s1) <-> In m (registry s2)) /\
   (forall m, In m (execs s1) <-> In m (execs s2)).
 Proof.
-  intros Hac s1 s2 R1 R2 F1 F2.
-  destruct (t_acyclic_succeed Hac s1 R1) as [_ H1]. destruct (H1 F1) as (L1 & A1 & C1).
-  destruct (t_acyclic_succeed Hac s2 R2) as [_ H2]. destruct (H2 F2) as (L2 & A2 & C2).
+  intros Hac Hgood s1 s2 R1 R2 F1 F2.
+  destruct (t_acyclic_succeed Hac Hgood s1 R1) as [_ H1]. destruct (H1 F1) as (L1 & A1 & C1).
+  destruct (t_acyclic_succeed Hac Hgood s2 R2) as [_ H2]. destruct (H2 F2) as (L2 & A2 & C2).
   assert (Hre : forall s, reachable s -> final s -> forall m, In m (execs s) <-> In m (registry s)).
   { intros s R F m. destruct (InvAll_reachable s R) as [[IR IS IC] _ _]. split.
     - apply (i_exreg _ IR).
